@@ -3,6 +3,7 @@
 from __future__ import annotations
 
 from asyncio import FIRST_COMPLETED, ensure_future, wait
+from collections.abc import AsyncGenerator, Awaitable, Callable
 from typing import TYPE_CHECKING, Any, Protocol, cast
 
 from ...error import GraphQLError, located_error
@@ -26,7 +27,7 @@ from .work_queue import (
 )
 
 if TYPE_CHECKING:
-    from collections.abc import AsyncGenerator, Sequence
+    from collections.abc import Sequence
 
     from ...pyutils import AbortSignal
     from ..types import IncrementalResult
@@ -74,6 +75,43 @@ class _SubsequentResultContext:
         self.incremental: list[IncrementalResult] = []
         self.completed: list[CompletedResult] = []
         self.has_next = True
+
+
+class _SubsequentResults(
+    AsyncGenerator[SubsequentIncrementalExecutionResult, None]
+):
+    """The stream of subsequent incremental results.
+
+    An asynchronous generator that has not been started runs no code when it is
+    closed, so this wrapper makes sure that the pending work is cancelled and the
+    stream sources are closed even if the stream is closed before its first result
+    has been requested.
+    """
+
+    __slots__ = "_cleanup", "_generator", "_started"
+
+    def __init__(
+        self,
+        generator: AsyncGenerator[SubsequentIncrementalExecutionResult, None],
+        cleanup: Callable[[], Awaitable[None]],
+    ) -> None:
+        self._generator = generator
+        self._cleanup = cleanup
+        self._started = False
+
+    async def asend(self, value: None) -> SubsequentIncrementalExecutionResult:
+        self._started = True
+        return await self._generator.asend(value)
+
+    async def athrow(self, *args: Any, **kwargs: Any) -> Any:
+        self._started = True
+        return await self._generator.athrow(*args, **kwargs)
+
+    async def aclose(self) -> None:
+        if not self._started:
+            self._started = True
+            await self._cleanup()
+        await self._generator.aclose()
 
 
 class IncrementalPublisher:
@@ -145,12 +183,29 @@ class IncrementalPublisher:
             )
         return pending_results
 
-    async def _subscribe(
+    def _subscribe(
         self,
         work_queue: WorkQueue,
         context: IncrementalPublisherContext,
     ) -> AsyncGenerator[SubsequentIncrementalExecutionResult, None]:
         """Subscribe to the incremental results."""
+
+        async def cleanup() -> None:
+            await work_queue.cancel()
+            await context.cancel_incremental_work()
+            context.run_async_work_finished_hook()
+
+        return _SubsequentResults(
+            self._generate_results(work_queue, context, cleanup), cleanup
+        )
+
+    async def _generate_results(
+        self,
+        work_queue: WorkQueue,
+        context: IncrementalPublisherContext,
+        cleanup: Callable[[], Awaitable[None]],
+    ) -> AsyncGenerator[SubsequentIncrementalExecutionResult, None]:
+        """Generate the incremental results."""
         abort_signal = context.abort_signal
         events = work_queue.events()
         try:
@@ -186,9 +241,7 @@ class IncrementalPublisher:
                 if not subsequent_result.has_next:
                     return
         finally:
-            await work_queue.cancel()
-            await context.cancel_incremental_work()
-            context.run_async_work_finished_hook()
+            await cleanup()
 
     def _handle_batch(
         self, batch: Sequence[WorkQueueEvent]
